@@ -53,6 +53,33 @@ func event.linkTo
   modifies everything
   ensures unlocked(e.linkMutex)
 
+-- attaching a hook: its identifier - the key under which it lives in the ordered map of hooks - is drawn from the atomic
+-- counter of the event (one increment per hook: identifiers are never used twice, so attaching never replaces a hook that
+-- is still attached, and an Unhook removes the hook it belongs to only)
+-- (checked for this statement only - opt only-ghost-asserts)
+-- (newHook: the postcondition is checked as the ghost assertion at return - opt only-ghost-asserts; the options are
+-- applied by code outside this claim, which cannot reach the new hook: it has not left newHook yet)
+func newHook
+  instantiate TriggerFunc: int
+  opt only-ghost-asserts
+  modifies everything
+  ghost at return: assert r0 != nil && r0.id == id && r0.event == event
+  ensures r0 != nil && r0.id == id && r0.event == event
+func event.Hook
+  instantiate TriggerFunc: int
+  opt only-ghost-asserts
+  opt sequential
+  opt assume-no-overflow             -- fewer than 2^64 hooks
+  requires e != nil && e.hooks != nil
+  modifies everything
+  ghost local drawn Int
+  ghost local before Int
+  ghost at entry: before = aload(e.hooksCounter)
+  ghost after call Uint64.Add: drawn = result
+  ghost after call Uint64.Add: assert drawn == before + 1
+  ghost before call newHook: assert arg0 == drawn
+  ghost before call OrderedMap.Set: assert arg1 == drawn
+
 -- ---------------------------------------------------------------------------------------------------------------
 -- Trigger: the closure that Trigger runs for every hook. It always lets the iteration go on (an exhausted hook is
 -- unhooked and skipped, it does not end the trigger for the hooks behind it). (That a live hook is delivered exactly
